@@ -104,6 +104,18 @@ func c01Cells(tier string) []Cell {
 						cells = append(cells, Cell{ID: k.ID()})
 					}
 
+					// A composite value: the builder of one key asks the same front-end for another key (with the context it was
+					// handed) while that key is being built by somebody else.
+					if sc == "o" || sc == "f" {
+						for _, second := range []string{"A", "T", "S"} {
+							r := c
+							r.Init, r.FailC, r.Callout = init+second, "00", false
+							r.Threads = [][]GOp{{{Key: 0}}, {{Key: 1}}, {{Key: 1}}}
+							r.Tags = []string{"stats", "log", "nested"}
+							cells = append(cells, Cell{ID: r.ID()})
+						}
+					}
+
 					// The bench/failover.go usage pattern: one key buffer reused for the next Get while the
 					// background build of the previous key may still be running, next to a plain Get of the second key.
 					if sc == "o" || sc == "f" {
